@@ -148,9 +148,13 @@ def _pca_records(ctx, rng, count, rid0, d=None):
                 F = _pca_via_model(ctx, d, rng, w)
             else:
                 F = compute_features(w.astype([np.float32, np.float64, np.int16][len(recs) % 3]))
-            if F.shape != (2 * nsw, nc, 3) or not np.array_equal(F, np.rint(F)):
-                discarded += 1       # LAPACK did not return exact unit vectors: not judged
-                continue
+            if F.shape != (2 * nsw, nc, 3):
+                raise ValueError('compute_features returned shape %r' % (F.shape,))
+            if np.abs(F - np.rint(F)).max() > 1e-4:
+                # the covariance of this family is exactly diagonal with distinct eigenvalues: every correct
+                # PCA projects on signed unit axes up to rounding error (integers here)
+                raise ValueError('features of the diagonal family are not projections on unit axes: %r' % (as_list(F[0]),))
+            F = np.rint(F)
             recs.append(dict(id=rid0 + len(recs), kind='pca', w=ints(w), F=ints(F)))
         if ctx.abort:
             break
@@ -205,11 +209,12 @@ def _pca_long_records(ctx, rng, count, rid0):
             Fd = np.zeros((2 * nsw, nc, 3))
             for s in range(2 * nsw):
                 rows = F[idx == s]
-                if not np.array_equal(rows, np.broadcast_to(rows[0], rows.shape)):
+                if np.abs(rows - rows[0]).max() > 1e-4:
                     raise ValueError('identical waveforms of one request got different features')
                 Fd[s] = rows[0]
-            if not np.array_equal(Fd, np.rint(Fd)):
-                continue                                    # not exact unit vectors: not judged
+            if np.abs(Fd - np.rint(Fd)).max() > 1e-4:
+                raise ValueError('features of the diagonal family are not projections on unit axes: %r' % (as_list(Fd[0]),))
+            Fd = np.rint(Fd)
             recs.append(dict(id=rid0 + len(recs), kind='pca_rep', w=ints(dist), cnt=cnt, F=ints(Fd)))
         if ctx.abort:
             break
